@@ -1,6 +1,7 @@
 package props
 
 import (
+	"context"
 	"fmt"
 	"os"
 	"path/filepath"
@@ -20,7 +21,7 @@ type c12 struct{}
 func (c12) ID() string    { return "C12" }
 func (c12) Level() string { return "exploration" }
 func (c12) Rule() string {
-	return "10 path-bearing attribute kinds (build context, additional context, env_file, label_file, bind source in short and long syntax, secret file, config file, develop watch path, bind device of a local volume) x 17 path shapes (./x, x/y, ../x, ., /abs, ~/x, ~, C:\\x, \\\\srv\\share, https://, git@, docker-image://, ssh://) x 9 origins (main, override, include depth 1, include depth 2, extended base in another directory, extended base used from an included file, extended base / included file in a sibling directory whose name starts with the project directory's name) x 3 working-directory shapes, and again with the service and resources named with an x- prefix, with resolution on (and off for main/override); expected value from the anchoring reference (Appendix A.5); plus the corpus documents with `./p` placed in every non-path string position (nothing may be anchored), and idempotence (render, reload, compare). distinct = distinct (attribute, shape, origin) outcomes"
+	return "10 path-bearing attribute kinds (build context, additional context, env_file, label_file, bind source in short and long syntax, secret file, config file, develop watch path, bind device of a local volume) x 17 path shapes (./x, x/y, ../x, ., /abs, ~/x, ~, C:\\x, \\\\srv\\share, https://, git@, docker-image://, ssh://) x 9 origins (main, override, include depth 1, include depth 2, extended base in another directory, extended base used from an included file, extended base / included file in a sibling directory whose name starts with the project directory's name) x 3 working-directory shapes, and again with the service and resources named with an x- prefix, with resolution on (and off for main/override); expected value from the anchoring reference (Appendix A.5); references recognised by one of three registered remote loaders (each position; directly and nested below a file extended from another directory); plus the corpus documents with `./p` placed in every non-path string position (nothing may be anchored), and idempotence (render, reload, compare). distinct = distinct (attribute, shape, origin) outcomes"
 }
 func (c12) Assumptions() []string {
 	return []string{
@@ -114,7 +115,7 @@ func (c12) Run(c *core.Ctx) {
 			}
 			for _, origin := range origins {
 				for wi, wd := range wds {
-					if wi > 0 && (origin != "main" && origin != "include1") {
+					if c.Quick() && wi > 0 && (origin != "main" && origin != "include1") {
 						continue
 					}
 					for _, resolve := range []bool{true, false} {
@@ -124,7 +125,7 @@ func (c12) Run(c *core.Ctx) {
 						a, sh, origin, wd, resolve := a, sh, origin, wd, resolve
 						id := fmt.Sprintf("%s/%s/%s/wd%d/r%v", a.name, sh.v, origin, wi, resolve)
 						c.Do(id, func() core.Outcome { c12pre = ""; return c12case(id, a, sh, origin, wd, resolve, home) })
-						if wi == 0 && resolve {
+						if (wi == 0 || !c.Quick()) && resolve {
 							// the same with the service and the resources named like extension keys
 							c.Do(id+"/x-names", func() core.Outcome {
 								c12pre = "x-"
@@ -138,6 +139,7 @@ func (c12) Run(c *core.Ctx) {
 		}
 	}
 	// universal part: "./p" in non-path string positions
+	c12remotes(c)
 	for _, pos := range c12nonPath {
 		pos := pos
 		c.Do("nonpath/"+pos, func() core.Outcome {
@@ -189,6 +191,67 @@ func (c12) Run(c *core.Ctx) {
 			}
 			return core.Outcome{Class: "nonpath/" + pos, Sample: doc}
 		})
+	}
+}
+
+// c12remote is a ResourceLoader for references of the form "<scheme>:<name>", served from a local directory.
+type c12remote struct {
+	scheme, dir string
+}
+
+func (r c12remote) Accept(path string) bool { return strings.HasPrefix(path, r.scheme+":") }
+func (r c12remote) Load(_ context.Context, path string) (string, error) {
+	return filepath.Join(r.dir, strings.TrimPrefix(path, r.scheme+":")), nil
+}
+func (r c12remote) Dir(path string) string { return r.dir }
+
+// c12remotes: references that one of several registered remote loaders recognises are left as written wherever the
+// loader resolves paths (here: extends.file inside a file extended from another directory), and what they bring is
+// anchored on the directory the loader names. Every position of the recognising loader among three is covered.
+func c12remotes(c *core.Ctx) {
+	schemes := []string{"rem1", "rem2", "rem3"}
+	for which := range schemes {
+		for _, nested := range []bool{false, true} {
+			which, nested := which, nested
+			id := fmt.Sprintf("remote/%s/nested%v", schemes[which], nested)
+			c.Do(id, func() core.Outcome {
+				ref := schemes[which] + ":base.yaml"
+				files := map[string]string{
+					"remotes/" + schemes[which] + "/base.yaml": "services:\n  b:\n    image: i\n    build: {context: ./ctx}\n    volumes: [\"./data:/d\"]\n",
+				}
+				if nested {
+					files["proj/compose.yaml"] = "services:\n  s:\n    extends: {file: ../lib/mid.yaml, service: m}\n"
+					files["lib/mid.yaml"] = "services:\n  m:\n    extends: {file: \"" + ref + "\", service: b}\n    hostname: h\n"
+				} else {
+					files["proj/compose.yaml"] = "services:\n  s:\n    extends: {file: \"" + ref + "\", service: b}\n"
+				}
+				s := &Scn{Files: files, Main: []string{"proj/compose.yaml"}, WD: "proj"}
+				root := s.Materialise()
+				s.Opts = []func(*loader.Options){func(o *loader.Options) {
+					for _, sc := range schemes {
+						o.ResourceLoaders = append(o.ResourceLoaders, c12remote{sc, filepath.Join(root, "remotes", sc)})
+					}
+				}}
+				p, err := s.LoadAt(root)
+				sample := map[string]any{"case": id, "files": files}
+				if err != nil {
+					if pe, ok := err.(*core.PanicError); ok {
+						return core.Outcome{Class: "panic", Sample: sample, Viol: &core.Violation{Key: "panic@" + pe.Site, Msg: id + ": " + pe.Error(), Detail: pe.Stack}}
+					}
+					return core.Outcome{Class: "err", Sample: sample, Viol: &core.Violation{Key: "remote-reference-not-left-as-written", Msg: fmt.Sprintf("%s: a reference recognised by registered loader %s makes the load fail: %v", id, schemes[which], err)}}
+				}
+				base := filepath.Join(root, "remotes", schemes[which])
+				svc := p.Services["s"]
+				if svc.Build == nil || svc.Build.Context != filepath.Join(base, "ctx") || len(svc.Volumes) != 1 || svc.Volumes[0].Source != filepath.Join(base, "data") {
+					got := ""
+					if svc.Build != nil {
+						got = svc.Build.Context
+					}
+					return core.Outcome{Class: "wrong", Sample: sample, Viol: &core.Violation{Key: "wrong-anchor:remote-base", Msg: fmt.Sprintf("%s: build context %q / volumes %v, expected them under %s", id, got, svc.Volumes, base)}}
+				}
+				return core.Outcome{Class: id, Sample: sample}
+			})
+		}
 	}
 }
 
